@@ -27,6 +27,7 @@ import (
 type injPlan struct {
 	FailAt   int64 // 0 = never
 	Panic    int   // 0 error return, 1 panic(error), 2 panic(string)
+	ErrVal   int   // what the failing invocation returns next to its error (injSetErrVal)
 	calls    atomic.Int64
 	failed   atomic.Int64
 	mu       sync.Mutex
@@ -47,12 +48,21 @@ func injReset(failAt int64, panicMode int) {
 	inj.mu.Lock()
 	inj.FailAt = failAt
 	inj.Panic = panicMode
+	inj.ErrVal = 0
 	inj.calls.Store(0)
 	inj.failed.Store(0)
 	inj.tagCalls = map[string]int{}
 	inj.tagDone = map[string]int{}
 	inj.tagArgs = map[string][]any{}
 	inj.gate = nil
+	inj.mu.Unlock()
+}
+
+// injSetErrVal chooses what the failing invocation of vf_fail / vf_failx returns NEXT TO its error (set after
+// injReset): 0 nothing, 1 the Go int 0 (`n, err := strconv.Atoi(..); return n, err`), 2 its argument, 3 a float32.
+func injSetErrVal(mode int) {
+	inj.mu.Lock()
+	inj.ErrVal = mode
 	inj.mu.Unlock()
 }
 
@@ -81,7 +91,7 @@ func vfMul(q *genql.Query, cur genql.Map, fo *genql.FunctionOptions, args []any)
 func vfFail(q *genql.Query, cur genql.Map, fo *genql.FunctionOptions, args []any) (any, error) {
 	n := inj.calls.Add(1)
 	inj.mu.Lock()
-	failAt, mode := inj.FailAt, inj.Panic
+	failAt, mode, errVal := inj.FailAt, inj.Panic, inj.ErrVal
 	inj.mu.Unlock()
 	if failAt != 0 && n == failAt {
 		inj.failed.Add(1)
@@ -90,6 +100,16 @@ func vfFail(q *genql.Query, cur genql.Map, fo *genql.FunctionOptions, args []any
 			panic(errInjected)
 		case 2:
 			panic("injected failure (vf_fail, non-error panic value)")
+		}
+		switch errVal {
+		case 1:
+			return int(0), errInjected
+		case 2:
+			if len(args) > 0 {
+				return args[0], errInjected
+			}
+		case 3:
+			return float32(1.5), errInjected
 		}
 		return nil, errInjected
 	}
@@ -295,6 +315,8 @@ func init() {
 	genql.RegisterFunction("vf_id", vfID)
 	genql.RegisterFunction("vf_mul", vfMul)
 	genql.RegisterFunction("vf_fail", vfFail)
+	// the same function registered the way an application without access to the engine's types does it
+	genql.RegisterExternalFunction("vf_failx", func(args []any) (any, error) { return vfFail(nil, nil, nil, args) })
 	genql.RegisterFunction("vf_tag", vfTag)
 	genql.RegisterFunction("vf_tag2", vfTag)
 	genql.RegisterFunction("vf_tag3", vfTag)
